@@ -2,6 +2,8 @@ package props
 
 import (
 	"bufio"
+	"bytes"
+	"compress/gzip"
 	"fmt"
 	"os"
 	"sort"
@@ -75,6 +77,22 @@ var changelogImpl = map[string]core.Adapter{
 		// file entry points, and ParseOne for the first entry
 		if one := clResult(changelog.Parse(iotest.OneByteReader(strings.NewReader(text)))); one != res {
 			return "onebyte-differs " + res + " / " + one
+		}
+		// readers that hand out their last bytes together with io.EOF (gzip.Reader, io.SectionReader),
+		// and a gzip stream as changelog.Debian.gz is read
+		if de := clResult(changelog.Parse(iotest.DataErrReader(strings.NewReader(text)))); de != res {
+			return "data-with-eof-reader-differs " + res + " / " + de
+		}
+		if len(text)%5 == 0 {
+			var zb bytes.Buffer
+			zw := gzip.NewWriter(&zb)
+			zw.Write([]byte(text))
+			zw.Close()
+			if zr, err := gzip.NewReader(&zb); err == nil {
+				if gz := clResult(changelog.Parse(zr)); gz != res {
+					return "gzip-reader-differs " + res + " / " + gz
+				}
+			}
 		}
 		if len(text)%7 == 0 {
 			f, err := os.CreateTemp("", "verif-changelog-")
